@@ -473,8 +473,15 @@ def compare(mapping, answer):
 
 def conformance(runner, cases):
     """cases: list of Case.  Returns list of (ok, problem, steps)."""
-    maps = [to_model(c) for c in cases]
-    lines = ["run " + " ".join(m.tokens) if m.tokens else "run" for m in maps]
+    maps = []
+    for c in cases:
+        try:
+            maps.append(to_model(c))
+        except Exception as e:  # a trace the mapping was not written for is a disagreement, not a crash
+            m = Mapping()
+            m.problems.append("the real trace cannot be mapped onto the model's critical sections (%s: %s)" % (type(e).__name__, e))
+            maps.append(m)
+    lines = ["run " + " ".join(m.tokens) if m.tokens and not m.problems else "run" for m in maps]
     answers = runner.query(lines) if lines else []
     return [compare(m, a) for m, a in zip(maps, answers)], maps
 
